@@ -50,6 +50,7 @@ func main() {
 	out := bufio.NewWriter(os.Stdout)
 	defer out.Flush()
 	trie := newTrie()
+	var stack []*at.Trie[*token.Token, int] // the tries that were current before the open forks (Y without Z yet)
 	for in.Scan() {
 		line := in.Text()
 		fs := strings.Fields(line)
@@ -115,10 +116,30 @@ func main() {
 			}
 		case "H":
 			trie = newTrie()
+			stack = stack[:0]
 			fmt.Fprintln(out, "H")
-		case "Y": // copy the trie (as generic instantiation does) and continue on the copy
+		case "Y": // fork begin: copy the trie (as generateGenericContext does) and continue on the copy
+			stack = append(stack, trie)
 			trie = at.Copy(trie)
 			fmt.Fprintln(out, "Y")
+		case "Z": // fork end: discard the copy, back to the trie that was current before the matching Y
+			if n := len(stack); n > 0 {
+				trie = stack[n-1]
+				stack = stack[:n-1]
+			}
+			fmt.Fprintln(out, "Z")
+		case "U": // Put: Insert without looking first (generateGenericContext inserts the declaration-site aliases so)
+			val, _ := strconv.Atoi(fs[1])
+			ks := keys(fs[2:])
+			func() {
+				defer func() {
+					if r := recover(); r != nil {
+						fmt.Fprintln(out, "U !")
+					}
+				}()
+				trie.Insert(ks, val)
+				fmt.Fprintln(out, "U")
+			}()
 		case "D":
 			val, _ := strconv.Atoi(fs[1])
 			ks := keys(fs[2:])
